@@ -49,7 +49,7 @@ theorem readf_ge (fn : Bytes → Option Bytes × Nat) (f : File) (pos p : Nat) (
   all_goals simp_all
   all_goals omega
 
-theorem skipLoop_ge (f : File) : ∀ (l : Bytes) (cur nl : Nat), (nl = 0 ∨ f.offset ≤ nl) →
+theorem skipLoop_ge_c12 (f : File) : ∀ (l : Bytes) (cur nl : Nat), (nl = 0 ∨ f.offset ≤ nl) →
     ((skipLoop f l cur nl).2 = 0 ∨ f.offset ≤ (skipLoop f l cur nl).2) := by
   intro l
   induction l with
@@ -64,11 +64,11 @@ theorem skipLoop_ge (f : File) : ∀ (l : Bytes) (cur nl : Nat), (nl = 0 ∨ f.o
       · exact h
     · exact h
 
-theorem skipWhitespaces_ge (f : File) (pos : Nat) (m : WsMode) :
+theorem skipWhitespaces_ge_c12 (f : File) (pos : Nat) (m : WsMode) :
     f.offset ≤ (skipWhitespaces f pos m).1 ∧
     (f.offset ≤ pos → ∀ q k, (skipWhitespaces f pos m).2 = some (q, k) → f.offset ≤ q) := by
   unfold skipWhitespaces
-  have hl := skipLoop_ge f (List.drop (pos - f.offset) f.data) (pos - f.offset) 0 (Or.inl rfl)
+  have hl := skipLoop_ge_c12 f (List.drop (pos - f.offset) f.data) (pos - f.offset) 0 (Or.inl rfl)
   rcases skipLoop f (List.drop (pos - f.offset) f.data) (pos - f.offset) 0 with ⟨cur, nl⟩
   simp only [File.pos] at *
   repeat' split
@@ -237,17 +237,17 @@ theorem setRposNode_ge (f : File) (m : WsMode) {n : Node} {ws : Option Err} (hn 
     (setRposNode f m n ws).1.posGE f.offset ∧ errGE f.offset (setRposNode f m n ws).2 := by
   cases n with
   | term t v p r =>
-    have h := skipWhitespaces_ge f r m
+    have h := skipWhitespaces_ge_c12 f r m
     simp only [Node.posGE] at hn
     simp only [setRposNode]
     exact ⟨⟨hn.1, h.1⟩, wsToErr_ge (h.2 hn.2)⟩
   | nt t c p r i =>
-    have h := skipWhitespaces_ge f r m
+    have h := skipWhitespaces_ge_c12 f r m
     simp only [Node.posGE] at hn
     simp only [setRposNode]
     exact ⟨⟨hn.1, h.1, hn.2.2⟩, wsToErr_ge (h.2 hn.2.1)⟩
   | empty p =>
-    have h := skipWhitespaces_ge f p m
+    have h := skipWhitespaces_ge_c12 f p m
     simp only [Node.posGE] at hn
     simp only [setRposNode]
     exact ⟨h.1, wsToErr_ge (h.2 hn)⟩
@@ -306,8 +306,8 @@ theorem seqAlts_ge {off : Nat} (k : Node → SeqSt → St → Option (Bool × Se
 
 theorem seqStep_ge {off : Nat} {r : RunFn} (hr : GERel off r) (sh : SeqShape) (depth : Nat) (ctx : Ctx) {pos : Nat}
     {st : St} {o : Out} {st1 : St} (hp : off ≤ pos) (hst : St.posGE off st)
-    (h : seqStep r sh depth ctx pos st = some (o, st1)) : Out.posGE off o ∧ St.posGE off st1 := by
-  unfold seqStep at h
+    (h : seqStep_c12 r sh depth ctx pos st = some (o, st1)) : Out.posGE off o ∧ St.posGE off st1 := by
+  unfold seqStep_c12 at h
   split at h
   · exact hr _ _ _ _ _ _ hp (regCall_ge hst) h
   · cases h; exact ⟨⟨trivial, errGE_none _⟩, hst⟩
@@ -327,8 +327,8 @@ theorem seqParse_ge {off : Nat} {r : RunFn} (hr : GERel off r) (sh : SeqShape) :
   | zero => intro _ _ _ _ _ _ _ _ _ _ _ _ h; simp [seqParse] at h
   | succ fuel ih =>
     intro depth nodes ctx pos merge ss st res hp hn hss hst h
-    rw [seqParse_succ] at h
-    rcases hs : seqStep r sh depth ctx pos st with _ | ⟨o, st1⟩
+    rw [seqParse_succ_c12] at h
+    rcases hs : seqStep_c12 r sh depth ctx pos st with _ | ⟨o, st1⟩
     · simp [hs] at h
     · simp only [hs] at h
       have h1 := seqStep_ge hr sh depth ctx hp hst hs
@@ -562,7 +562,7 @@ theorem run_ge (cfg : Cfg) : ∀ fuel, GERel cfg.file.offset (run cfg fuel) := b
           · exact ⟨⟨this.1.1, errGE_none _⟩, this.2⟩
       | ltrim g' m =>
         simp only [run, hmax, if_false] at h
-        have hw := skipWhitespaces_ge cfg.file pos m
+        have hw := skipWhitespaces_ge_c12 cfg.file pos m
         rcases hsk : skipWhitespaces cfg.file pos m with ⟨pos', ws⟩
         rw [hsk] at hw h
         simp only [] at h hw
@@ -590,7 +590,7 @@ theorem run_ge (cfg : Cfg) : ∀ fuel, GERel cfg.file.offset (run cfg fuel) := b
           have := ih _ _ _ _ _ _ hp hst hr
           split at h
           · rename_i e he
-            have hw := skipWhitespaces_ge cfg.file e.pos m
+            have hw := skipWhitespaces_ge_c12 cfg.file e.pos m
             rcases hsk : skipWhitespaces cfg.file e.pos m with ⟨errPos, x⟩
             rw [hsk] at hw h
             simp only [] at h hw
